@@ -141,6 +141,21 @@ func newWorld(rng *rand.Rand, k int) *hsWorld {
 			}
 		}
 	}
+	// clear-text passwords that look like the hash form without being one
+	hexd := "0123456789ABCDEFabcdef"
+	mk := func(n int, alphabet string) string {
+		var sb strings.Builder
+		sb.WriteByte('*')
+		for i := 0; i < n; i++ {
+			sb.WriteByte(alphabet[rng.Intn(len(alphabet))])
+		}
+		return sb.String()
+	}
+	w.pw["s:short"] = mk(rng.Intn(40), hexd) // '*' + 0..39 hex digits
+	w.pw["s:long"] = mk(41+rng.Intn(20), hexd)
+	nh := []byte(mk(40, hexd))
+	nh[1+rng.Intn(40)] = "ghijkXYZ_-*"[rng.Intn(11)] // 40 characters, at least one not hexadecimal
+	w.pw["s:nonhex"] = string(nh)
 	for _, name := range []string{"s1", "s2"} {
 		b := make([]byte, 20)
 		for i := range b {
@@ -162,7 +177,7 @@ func (w *hsWorld) concretePw(abs string) string {
 	if strings.HasPrefix(abs, "*") {
 		return refStoredHash(w.pw[abs[1:]])
 	}
-	return w.pw[abs]
+	return w.pw[abs] // "p1".., "s:short"..
 }
 
 func (w *hsWorld) response(r *hsResp, rng *rand.Rand) []byte {
@@ -183,7 +198,9 @@ func (w *hsWorld) response(r *hsResp, rng *rand.Rand) []byte {
 	case "trunc":
 		b = b[:len(b)-1]
 	case "ext21": // one more byte: 21 for a native proof, 33 for a sha2 proof
-		b = append(b, byte(rng.Intn(256)))
+		b = append(b, byte(1+rng.Intn(255)))
+	case "extnul": // one more byte, 0x00 (what a NUL-terminated auth response would carry)
+		b = append(b, 0)
 	case "ext32": // padded to 32 bytes (native proof) / 40 bytes (sha2 proof)
 		n := 32
 		if len(b) >= 32 {
@@ -221,7 +238,7 @@ func respClass(c *hsCase) string {
 	}
 	what := "unconfigured-pw"
 	nhash := 0
-	var isClear, isFirstHash, isLaterHash, isText bool
+	var isClear, isStar, isFirstHash, isLaterHash, isText bool
 	for _, s := range c.Stored {
 		if s.Form == "hash" {
 			nhash++
@@ -230,6 +247,9 @@ func respClass(c *hsCase) string {
 			switch {
 			case s.Form == "clear":
 				isClear = true
+				if strings.HasPrefix(s.Pw, "s:") {
+					isStar = true
+				}
 			case nhash == 1:
 				isFirstHash = true
 			default:
@@ -242,7 +262,9 @@ func respClass(c *hsCase) string {
 	}
 	// the same password may be configured in several forms: name all of them, in a fixed order
 	var kinds []string
-	if isClear {
+	if isClear && isStar {
+		kinds = append(kinds, "clear(*-prefixed:"+r.Pw[2:]+")")
+	} else if isClear {
 		kinds = append(kinds, "clear")
 	}
 	if isFirstHash {
@@ -260,7 +282,7 @@ func respClass(c *hsCase) string {
 	if r.Salt != c.Salt {
 		what += "/other-salt"
 	}
-	return fmt.Sprintf("%s(%s)%s", r.M, what, map[string]string{"none": "", "bitflip": "/bitflip", "trunc": "/truncated", "ext21": "/one-byte-longer", "ext32": "/padded"}[r.Mod])
+	return fmt.Sprintf("%s(%s)%s", r.M, what, map[string]string{"none": "", "bitflip": "/bitflip", "trunc": "/truncated", "ext21": "/one-byte-longer", "extnul": "/one-NUL-byte-longer", "ext32": "/padded"}[r.Mod])
 }
 
 func respLenClass(n int) string {
